@@ -1163,7 +1163,11 @@ pub fn c08_on_call(w: &mut MWorld, ci: usize) {
             matches!(opk, Op::Get { .. }) || c.actor == CONTROLLER
         }
         CallKind::Pred => matches!(opk, Op::Retain { .. }),
-        CallKind::Detach => true,
+        // the pool lets go of objects in these calls only: not in status(), not when a handle is
+        // dropped, not in the background
+        CallKind::Detach => {
+            matches!(opk, Op::Get { .. } | Op::Return { .. } | Op::Take { .. } | Op::Retain { .. } | Op::Resize { .. } | Op::Close) || c.actor == CONTROLLER
+        }
     };
     if !allowed {
         let d = format!("{} was called from inside {:?}", c.kind.name(), opk);
@@ -1960,10 +1964,9 @@ pub fn c06_get_return(w: &mut MWorld, opi: usize) -> Option<Violation> {
         }
         w.cnt.probe("get_after_close_closed");
     } else if w.orc.must_close.contains(&opi) {
-        let ok = matches!(
-            res,
-            OpRes::GetErr(ErrV::Closed) | OpRes::Cancelled | OpRes::EnclosingTimeout | OpRes::GetErr(ErrV::TimeoutWait)
-        );
+        // (a wait deadline that has passed as well does not change the answer: the call was
+        // still waiting when close() returned, and the closed pool is looked at first)
+        let ok = matches!(res, OpRes::GetErr(ErrV::Closed) | OpRes::Cancelled | OpRes::EnclosingTimeout);
         if !ok || !op.calls.is_empty() {
             return c06(
                 "waiting_get_is_closed",
